@@ -50,15 +50,16 @@ SubgraphRec(r) ==
     /\ r.out.en = Cardinality({p \in R(r.g.n) \X R(r.g.n) : (r.dir \/ p[1] <= p[2]) /\ keep(p[1], p[2])})
 \* edge-list constructors (Kind of this run = the class family of the record)
 Tr3(s) == [k \in 1 .. Len(s) |-> <<s[k][1], s[k][2], s[k][3]>>]
+\* C09 is relative here: 1 + largest index vertices, and EQUAL TO THE GRAPH OBTAINED BY ADDING THE
+\* EDGES ONE AT A TIME to a real object of the class (r.one); that the specification's transcription of
+\* the constructor has the same property is checked on the model (Derived!EdgeListOK)
 EdgeListRec(r) ==
     LET s == Tr3(r.seq) IN
-    IF r.dir
-    THEN /\ D!Enc(FromEdgeListD(s)) = r.out
-         /\ r.out.n = MaxIdx(s) + 1
-         /\ FromEdgeListD(s) = AddAllD(D!Empty(MaxIdx(s) + 1), s)
-    ELSE /\ U!Enc(FromEdgeListU(s)) = r.out
-         /\ r.out.n = MaxIdx(s) + 1
-         /\ FromEdgeListU(s) = AddAllU(U!Empty(MaxIdx(s) + 1), s)
+    /\ r.out.n = MaxIdx(s) + 1
+    /\ r.out = r.one
+    /\ r.equal_one
+    /\ IF r.dir THEN FromEdgeListD(s) = AddAllD(D!Empty(MaxIdx(s) + 1), s)
+                ELSE FromEdgeListU(s) = AddAllU(U!Empty(MaxIdx(s) + 1), s)
 
 BigDerivedOK ==
     LET r == Recs[idx] IN
